@@ -335,4 +335,10 @@ MUTANTS = [
     M("B6-3-ne", ["C12"], (HRS, ".all(|cp| self.0.get(&cp) == Some(probability))\n                {\n                    rank_pairs.insert(pocket", ".all(|cp| self.0.get(&cp) != Some(probability))\n                {\n                    rank_pairs.insert(pocket"), base="B6-3"),
     M("B6-3-flatten-skip", ["C12"], (HRS, "self.rank_pairs().into_keys().flatten()", "self.rank_pairs().into_keys().flatten().skip(1)"), base="B6-3"),
     M("B6-3-other-probe", ["C12"], (HRS, "if let Some(probability) = self.0.get(&example_suited) {", "if let Some(probability) = self.0.get(&example_pocket_x) {"), (HRS, "        for high in RankRange::inclusive(Rank::Ace, Rank::Trey) {\n            for kicker in RankRange::inclusive(high.next().unwrap(), Rank::Deuce) {\n                let example_suited", "        for high in RankRange::inclusive(Rank::Ace, Rank::Trey) {\n            for kicker in RankRange::inclusive(high.next().unwrap(), Rank::Deuce) {\n                let example_pocket_x = CardPair::new(Card::new(high, Suit::Spade), Card::new(high, Suit::Heart));\n                let example_suited"), base="B6-3"),
+    # clippy --fix output (K1) and the remaining clippy findings fixed by hand (K2)
+    M("benign-K1-clippy-autofix", ["C01", "C02", "C04", "C05", "C07", "C08", "C09", "C10", "C15"], base="K1-clippy-autofix", benign=True),
+    M("benign-K2-clippy-manual", ["C01", "C02", "C07", "C08", "C15"], base="K2-clippy-manual", benign=True),
+    M("K1-static-slot", ["C01", "C07"], (DP, "pub static AS_RAINBOW: [u16; 49205] = [\n    11, 23, 11, 167,", "pub static AS_RAINBOW: [u16; 49205] = [\n    11, 23, 11, 168,"), base="K1-clippy-autofix"),
+    M("K1-static-atomic-table", ["C15"], (FE, "        let mut player_card_pairs = vec![];", "        static DEALS: std::sync::atomic::AtomicUsize = std::sync::atomic::AtomicUsize::new(0);\n        if DEALS.fetch_add(1, std::sync::atomic::Ordering::Relaxed) == usize::MAX { self.current_used_cards.clear(); }\n        let mut player_card_pairs = vec![];"), base="K1-clippy-autofix"),
+    M("K2-partial-cmp-reversed", ["C01"], (MH, "        Some(self.cmp(other))", "        Some(other.cmp(self))"), base="K2-clippy-manual"),
 ]
